@@ -55,6 +55,13 @@ def generate(rng, repo_root, config="A", opts=None):
     gA = world.draw_grid(rng, nmax=nmax)
     gB = world.same_length_variant(rng, gA)
     gC = world.other_length_variant(rng, gA, nmax=nmax)
+    u = rng.random()
+    if u < 0.08:
+        gC = world.continuation_of(gC, gA)      # C starts exactly where A ends
+    elif u < 0.14:
+        gB = world.continuation_of(gB, gA)      # B (same length) starts exactly where A ends
+    elif u < 0.18:
+        gA = world.continuation_of(gA, gC)      # A starts exactly where C ends
     grids = {"A": gA, "B": gB, "C": gC}
 
     nops = rng.choice([2, 3, 3, 4, 4, 5, 6, 8, 12])
@@ -511,7 +518,6 @@ class Runner:
                     # operation cut short
                     pending_async[k] = pending_async[k] or fault["kind"] == "F-crash-line" or fault.get("exc") == "KeyboardInterrupt"
                     pending_fail[k] = True
-                    self._add_cache_dropped_candidate(k, cands, ab, last_completed_op)
                     ever_failed[k] = True
                     ab["failed"] = True
                     if st_r[0] is not None and st_r[1] is not None and cands[k]:
@@ -555,7 +561,6 @@ class Runner:
                         self.violate(i, "A-sim", op0, "exc-type", {"real": out_r.exc, "fresh": out_f.exc})
                     pending_fail[k] = True  # (pending_async stays as it is: sticky until a simulate completes)
                     ever_failed[k] = True
-                    self._add_cache_dropped_candidate(k, cands, ab, last_completed_op)
                     ab["failed"] = True
                     if st_r[0] is not None and st_r[1] is not None and cands[k]:
                         if self._state_eq(st_r, self._state(cands[k][0])):
@@ -645,16 +650,6 @@ class Runner:
             if world.table_digest(tables[j]) != self.table_digest0[j]:
                 self.probe("caller_table_changed")
         return self
-
-    def _add_cache_dropped_candidate(self, k, cands, ab, last_completed_op):
-        """A failed simulate may legitimately have dropped the recovery cache (e.g. a tree that clears it before
-        validating): also accept 'last completed simulate, reads forgotten' as the reference."""
-        if last_completed_op[k] is None or not (ab["cache"] != "none" and ab["cache_cur"]) or len(cands[k]) >= 6:
-            return
-        alt = self._fresh(k)
-        self._call(alt, last_completed_op[k], None)
-        cands[k] = cands[k] + [alt]
-        self.probe("cache_dropped_candidate_added")
 
     def _ctx(self, k, last_sim_kind):
         return {"cls": self.scn["objects"][k]["cls"], "prev_sim": last_sim_kind[k]}
